@@ -24,7 +24,7 @@ RULE = ('case = (body: random bytes | well-formed multipart from the harness enc
 ASSUMPTIONS = ['a 10 s watchdog (SIGALRM) operationalises "never hangs"; inputs normally take < 5 ms',
                'header values are Latin-1 text without CR/LF (what a server can deliver)']
 
-BOUNDS = ['b', 'bnd', '--b', 'X-1', 'a' * 40]
+BOUNDS = ['b', 'bnd', '--b', 'X-1', 'a' * 40, 'B' * 69, 'c' * 70, 'd' * 71, 'e' * 100, 'f' * 300]         # (RFC 2046 allows 1-70 characters; longer ones still arrive)
 WATCHDOG_S = 10
 
 
@@ -234,8 +234,20 @@ def check_case(ctx, case):
                 d = {}
                 for k, x in v.items():
                     items = x if isinstance(x, list) else [x]
-                    d[k] = [it if isinstance(it, (str, int, float, bool, type(None), list, dict)) else ('FILE', it.raw_filename, (it.file.seek(0), it.file.read())[1])
-                            for it in items]
+                    d[k] = [it if isinstance(it, (str, int, float, bool, type(None), list, dict)) else ['FILE', it.raw_filename, it] for it in items]
+                # uploads are read the way applications do: the first bytes of every upload (sniffing), a glance at request.body, then the rest of each
+                ups = [it for its in d.values() for it in its if isinstance(it, list) and it and it[0] == 'FILE' and not isinstance(it[2], bytes)]
+                for u in ups:
+                    u[2].file.seek(0)
+                heads = [u[2].file.read(4) for u in ups]
+                if ups:
+                    rq.body.read(9)
+                for u, head in zip(ups, heads):
+                    u[2] = head + u[2].file.read()
+                for its in d.values():
+                    for j, it in enumerate(its):
+                        if isinstance(it, list) and it and it[0] == 'FILE':
+                            its[j] = tuple(it)
                 v = d
             seen.append((acc, v))
         return 'ok'
@@ -437,6 +449,16 @@ def run(ctx):
                         ctx.guarded(check_case, {'family': 'multipart', 'body': bd, 'ctype': 'multipart/form-data; boundary=bnd', 'boundary': 'bnd', 'mutations': [['part_charset', 0, 0]],
                                                  'framing': 'length', 'fr_a': 0, 'fr_b': 1, 'chunks': [], 'B': 102400, 'access': ['POST', 'forms', 'files'], 'pattern': [], 'method': 'POST'})
         ctx.count('part_charset_grid')
+        # boundary lengths around and beyond the RFC limit of 70, well-formed / truncated / empty bodies, every reader, both framings
+        for L in (1, 69, 70, 71, 72, 100, 1000):
+            bnd = 'x' * L
+            good, _ = encode_multipart(bnd, [{'name': 'a', 'value': b'one'}, {'name': 'f', 'filename': 'x.bin', 'value': b'file data'}], b'', b'\r\n')
+            for bd in (good, good[:len(good) // 2], b''):
+                for acc in (['forms'], ['files'], ['POST'], ['body'], ['params']):
+                    for fr in ('length', 'chunked'):
+                        ctx.guarded(check_case, {'family': 'multipart', 'body': bd, 'ctype': 'multipart/form-data; boundary=' + bnd, 'boundary': bnd, 'mutations': [['boundary_length', L, 0]],
+                                                 'framing': fr, 'fr_a': 0, 'fr_b': 1, 'chunks': [50], 'B': 102400, 'access': acc, 'pattern': [], 'method': 'POST'})
+        ctx.count('boundary_length_grid')
         # one malformed body of every family / framing served by a worker thread instead of the thread that imported the framework
         for fam, bd, ct in (('json', b'{"a":', 'application/json'), ('json', b'[' * 3000, 'application/json'), ('multipart', body[:40], 'multipart/form-data; boundary=bnd'),
                             ('multipart', body, 'multipart/form-data; boundary=bnd'), ('urlencoded', b'a=%zz&b', 'application/x-www-form-urlencoded'),
